@@ -29,10 +29,9 @@ def _self_calls(node, sn, name=None):
 
 
 def _analysis_roots(ctx, K, holds):
-    """Functions in whose normalised view the sites of interest are to be looked at: a private helper that `holds` a site is
-    analysed through its callers (its body is expanded there, with the callers' arguments bound), everything else on its own."""
-    import ast
-
+    """Functions in whose normalised view the sites of interest are looked at: every member that `holds` a site and, transitively, every
+    member calling one of those (a helper's body is expanded in its callers' views, with the callers' arguments bound — that is where the
+    provenance of what the helper is given can be decided; the helper is looked at on its own as well)."""
     members = [f for f in K.methods.values()] + [f for pr in K.props.values() for f in (pr.getter, pr.setter) if f is not None and f.cls is K]
     holders = [f for f in members if holds(f.node)]
     out, seen = [], set()
@@ -42,12 +41,8 @@ def _analysis_roots(ctx, K, holds):
         if f in seen:
             continue
         seen.add(f)
-        private = f.name.startswith("_") and not f.name.startswith("__")
-        callers = [g for g in members if g is not f and _self_calls(g.node, g.self_name or "self", f.name)] if private else []
-        if callers:
-            work += callers
-        else:
-            out.append(f)
+        out.append(f)
+        work += [g for g in members if g is not f and g not in seen and _self_calls(g.node, g.self_name or "self", f.name)]
     return out, holders
 
 
@@ -73,11 +68,15 @@ def rule_prov(ctx) -> RuleResult:
     roots_fns, holders = _analysis_roots(ctx, dh, holds)
     n_calls = 0
     covered = set()
-    for fn in sorted(roots_fns, key=lambda f: f.node.lineno):
+    feeds: dict = {}  # method name -> its parameters that reach the argument of a desurvey call feeding add_vertices
+    # helpers first (fewest callers in the closure last): what a helper does with its parameters is known when its callers are looked at
+    order = sorted(roots_fns, key=lambda f: (f.name in _ENTRY_POINTS, f not in holders, f.node.lineno))
+    for fn in order:
         v = ctx.view(fn)
         sn = v.self_name or "self"
         calls = _self_calls(v.node, sn, "add_vertices")
-        if not calls:
+        left = [c for c in _self_calls(v.node, sn) if c.func.attr in feeds and c.func.attr != fn.name]
+        if not calls and not left:
             continue
         fl = Flow(v.node)
         params = fn.params[1:]
@@ -115,11 +114,34 @@ def rule_prov(ctx) -> RuleResult:
                 r |= fl.roots(d_arg, env)
             ok = not any(q in r for q in value_params) and (any(q in r for q in depth_params) or not depth_params)
             if not depth_params and not value_params:
-                # a public helper taking the depths under another name: what it is given is decided at its call sites
+                # a helper taking the depths under another name: what it is given is decided at its call sites (expanded in the
+                # callers' views; checked below at the calls that could not be expanded)
                 ok = True
+            if fn.name not in _ENTRY_POINTS:
+                feeds.setdefault(fn.name, set()).update(r & set(params))
             res.inst(f"Drillhole.{name}:{c.lineno} add_vertices(self.desurvey(..)) <- {sorted(r & set(params))}", nontrivial=True, ok=ok)
             if not ok:
                 res.find("Drillhole", name, f"desurveyed depths derive from {sorted(r & set(params))}", where,
+                         "the positions of the new vertices are computed from something else than the depths being added")
+        # calls to a helper that could not be expanded in this view: the arguments bound to the parameters it desurveys
+        for c in left:
+            if not fl.nodes_of(c):
+                continue
+            hp = dh.methods[c.func.attr].params[1:] if c.func.attr in dh.methods else []
+            bound = dict(zip(hp, c.args))
+            bound.update({k.arg: k.value for k in c.keywords if k.arg})
+            r = set()
+            for q in feeds[c.func.attr]:
+                if q in bound:
+                    r |= fl.roots(bound[q])
+            if not depth_params and not value_params:
+                feeds.setdefault(fn.name, set()).update(r & set(params))
+                continue
+            n_calls += 1
+            ok = not any(q in r for q in value_params) and any(q in r for q in depth_params)
+            res.inst(f"Drillhole.{name}:{c.lineno} {c.func.attr}(..) desurveys <- {sorted(r & set(params))}", nontrivial=True, ok=ok)
+            if not ok:
+                res.find("Drillhole", name, f"desurveyed depths derive from {sorted(r & set(params))}", f"{fn.module.relpath}:{c.lineno}",
                          "the positions of the new vertices are computed from something else than the depths being added")
     # an entry point that hands the work to another (public) method of the class is covered through that method
     analysed = {f.name for f in roots_fns}
@@ -175,7 +197,8 @@ def rule_prov(ctx) -> RuleResult:
 
 
 def _candidates(ctx, holds):
-    """Functions of the package whose normalised view may contain a site: those holding one, private helpers replaced by their callers."""
+    """Functions of the package whose normalised view may contain a site: those holding one and, transitively, their callers (a helper's
+    body is expanded in its callers' views); a private helper that has callers is only looked at through them."""
     import ast
 
     p = ctx.p
@@ -190,19 +213,92 @@ def _candidates(ctx, holds):
         seen.add(id(f))
         private = f.name.startswith("_") and not f.name.startswith("__")
         callers = []
-        if private:
-            for g in fns:
-                if g is f or (f.cls is None and g.module is not f.module) or (f.cls is not None and g.cls is None):
-                    continue
-                for c in ast.walk(g.node):
-                    if isinstance(c, ast.Call) and ((isinstance(c.func, ast.Name) and c.func.id == f.name) or (isinstance(c.func, ast.Attribute) and c.func.attr == f.name)):
-                        callers.append(g)
-                        break
-        if callers:
-            work += callers
-        else:
+        for g in fns:
+            if g is f or (private and ((f.cls is None and g.module is not f.module) or (f.cls is not None and g.cls is None))):
+                continue
+            for c in ast.walk(g.node):
+                if isinstance(c, ast.Call) and ((isinstance(c.func, ast.Name) and c.func.id == f.name) or (isinstance(c.func, ast.Attribute) and c.func.attr == f.name)):
+                    callers.append(g)
+                    break
+        work += callers
+        if not (private and callers):
             out.append(f)
     return out
+
+
+def _resolve_callee(ctx, K, fn, call):
+    """(FuncInfo, drops_receiver) for self.m(..) / cls.m(..) / Class.m(..) / f(..) resolvable in the package, else None."""
+    import ast
+
+    f = call.func
+    if isinstance(f, ast.Attribute) and isinstance(f.value, ast.Name):
+        owner = None
+        if K is not None and f.value.id in ("self", "cls", fn.self_name or ""):
+            owner = K
+        else:
+            r = ctx.p.resolve_name(fn.module, f.value.id)
+            if r and r[0] == "class":
+                owner = r[1]
+            elif r and r[0] == "module" and f.attr in r[1].functions:
+                return r[1].functions[f.attr], False
+        if owner is not None:
+            m = owner.lookup(f.attr)
+            if m and m[1] == "method":
+                return m[2], m[2].kind in ("method", "classmethod") and (owner is K and f.value.id in ("self", "cls", fn.self_name or "") or m[2].kind == "classmethod")
+    elif isinstance(f, ast.Name):
+        r = ctx.p.resolve_name(fn.module, f.id)
+        if r and r[0] == "func":
+            return r[1], False
+    return None
+
+
+def _tolerance_sites(ctx, K, fn, tol_params, depth=0, seen=None):
+    """Ordering comparisons against a value computed from the tolerance alone, in the normalised view of fn and — where the tolerance
+    is handed to a function of the package whose body could not be expanded in place (a generator, a helper overridden in a subclass) —
+    in that function, with the parameter the tolerance is bound to: [(view, flow, parent map, compare, distance side, operator)]."""
+    import ast
+
+    from ._c17_flow import Flow
+
+    seen = seen if seen is not None else set()
+    if depth > 3 or (id(fn.node), tuple(tol_params)) in seen or not tol_params:
+        return []
+    seen.add((id(fn.node), tuple(tol_params)))
+    v = ctx.view(fn)
+    fl = Flow(v.node)
+    parents = {}
+    for n in ast.walk(v.node):
+        for ch in ast.iter_child_nodes(n):
+            parents[id(ch)] = n
+
+    def from_tol(e):
+        """e is computed from the tolerance parameter alone (the tolerance, possibly scaled / read into a local)"""
+        r = fl.roots(e) if fl.nodes_of(e) else set()
+        return bool(r) and r <= set(tol_params)
+
+    sites = []
+    for c in ast.walk(v.node):
+        if isinstance(c, ast.Compare) and len(c.ops) == 1 and isinstance(c.ops[0], (ast.Lt, ast.LtE, ast.Gt, ast.GtE)) and fl.nodes_of(c):
+            l, r = c.left, c.comparators[0]
+            if from_tol(r) and not from_tol(l):
+                sites.append((v, fl, parents, c, l, c.ops[0]))
+            elif from_tol(l) and not from_tol(r):
+                flip = {ast.Lt: ast.Gt, ast.LtE: ast.GtE, ast.Gt: ast.Lt, ast.GtE: ast.LtE}.get(type(c.ops[0]))
+                sites.append((v, fl, parents, c, r, flip() if flip else c.ops[0]))
+        elif isinstance(c, ast.Call) and fl.nodes_of(c):
+            given = [(i, a) for i, a in enumerate(c.args) if from_tol(a)] + [(k.arg, k.value) for k in c.keywords if k.arg and from_tol(k.value)]
+            if not given:
+                continue
+            rc = _resolve_callee(ctx, fn.cls if fn.cls is not None else K, fn, c)
+            if rc is None or rc[0].node is fn.node:
+                continue
+            callee, drop = rc
+            ps = callee.params[1:] if drop else callee.params
+            kw = {x.arg for x in callee.node.args.kwonlyargs}
+            bound = [ps[i] if isinstance(i, int) and i < len(ps) else i for i, _a in given]
+            bound = [b for b in bound if isinstance(b, str) and (b in ps or b in kw)]
+            sites += _tolerance_sites(ctx, callee.cls if callee.cls is not None else K, callee, bound, depth + 1, seen)
+    return sites
 
 
 def rule_match(ctx) -> RuleResult:
@@ -235,6 +331,37 @@ def rule_match(ctx) -> RuleResult:
             r = p.resolve_name(v.module, e.id) if isinstance(e, ast.Name) else None
             return bool(r) and r[0] in ("external", "module")
 
+        def record_field(e, env):
+            """e = R.name / R[i] with R bound to a tuple display or to a record built by a class of the package whose fields are its
+            annotated names in order (NamedTuple, dataclass): (the expression that field was built from, its environment), else None."""
+            base = e.value
+            if key_of(base) is None:
+                return None
+            ds, entry = fl.reaching(base, env)
+            if entry or len(ds) != 1:
+                return None
+            b, benv = fl.resolve(base, env)
+            if isinstance(e, ast.Subscript):
+                if isinstance(b, (ast.Tuple, ast.List)) and isinstance(e.slice, ast.Constant) and isinstance(e.slice.value, int) and -len(b.elts) <= e.slice.value < len(b.elts):
+                    return b.elts[e.slice.value], benv
+                idx = e.slice.value if isinstance(e.slice, ast.Constant) and isinstance(e.slice.value, int) else None
+            else:
+                idx = None
+            if not isinstance(b, ast.Call) or any(isinstance(a, ast.Starred) for a in b.args):
+                return None
+            r = p.resolve_name(v.module, b.func.id) if isinstance(b.func, ast.Name) else None
+            if not r or r[0] != "class" or r[1].node is None or "__init__" in r[1].methods:
+                return None
+            fields = [st.target.id for st in r[1].node.body if isinstance(st, ast.AnnAssign) and isinstance(st.target, ast.Name)]
+            name = e.attr if isinstance(e, ast.Attribute) else (fields[idx] if idx is not None and 0 <= idx < len(fields) else None)
+            if name not in fields:
+                return None
+            i = fields.index(name)
+            if i < len(b.args):
+                return b.args[i], benv
+            kw = next((k.value for k in b.keywords if k.arg == name), None)
+            return (kw, benv) if kw is not None else None
+
         def is_perm(e, env=None, depth=0):
             """e evaluates to the result of an argsort (np.argsort(a) / a.argsort()), possibly through locals."""
             if depth > 6:
@@ -246,6 +373,10 @@ def rule_match(ctx) -> RuleResult:
                     inner = e.func.value if isinstance(e.func, ast.Attribute) and not is_module(e.func.value) else (e.args[0] if e.args else None)
                     return inner is not None and is_perm(inner, env, depth + 1)
                 return False
+            if isinstance(e, (ast.Attribute, ast.Subscript)):
+                rf = record_field(e, env if env is not None else (fl.env(fl.nodes_of(e)) if fl.nodes_of(e) else {}))
+                if rf is not None:
+                    return is_perm(rf[0], rf[1], depth + 1)
             if key_of(e) is not None:
                 ds, entry = fl.reaching(e, env if env is not None else (fl.env(fl.nodes_of(e)) if fl.nodes_of(e) else {}))
                 strong = [d for d in ds if d.strong and d.value is not None]
@@ -313,7 +444,13 @@ def rule_match(ctx) -> RuleResult:
                             return True
                 return False
 
-            ok = bool(rets) and all(mapped_back(r) for r in rets)
+            def hands_out_perm(r):
+                """the permutation itself is part of what is returned (`return perm, positions` / a record holding both): the positions
+                are returned AS positions in the sorted copy, together with what maps them back — decided where the caller uses them"""
+                val, venv = fl.resolve(r.value)
+                return any(isinstance(x, (ast.Name, ast.Attribute)) and key_of(x) is not None and is_perm(x, venv) for x in ast.walk(val))
+
+            ok = bool(rets) and all(mapped_back(r) or hands_out_perm(r) for r in rets)
             res.inst(f"{fn.qualname}:{c.lineno} searchsorted in a permuted copy; returned indices mapped back through the permutation", nontrivial=True, ok=ok)
             if not ok:
                 res.find(fn.cls.name if fn.cls else fn.module.short, fn.name, "positions found in the sorted copy are returned without mapping back through the argsort permutation",
@@ -327,33 +464,13 @@ def rule_match(ctx) -> RuleResult:
     vi0 = dh.methods.get("validate_interval_data")
     if vi0 is None:
         raise AnalysisError("anchor Drillhole.validate_interval_data not found")
-    vi = ctx.view(vi0)
-    fl = Flow(vi.node)
-    tol_params = [q for q in vi.params[1:] if q not in _DEPTH_PARAMS + _VALUE_PARAMS]  # the tolerance parameter(s) of the entry point
-    ALL_RED = {"norm", "max", "amax", "all", "alltrue"}
-    ANY_RED = {"min", "amin", "any", "sometrue"}
-    parents = {}
-    for n in ast.walk(vi.node):
-        for ch in ast.iter_child_nodes(n):
-            parents[id(ch)] = n
-
-    def from_tol(e):
-        """e is computed from the tolerance parameter alone (the tolerance, possibly scaled / read into a local)"""
-        r = fl.roots(e) if fl.nodes_of(e) else set()
-        return bool(r) and r <= set(tol_params)
-
-    sites = []  # (compare node, distance side, operator as seen from the distance side)
-    for c in ast.walk(vi.node):
-        if isinstance(c, ast.Compare) and len(c.ops) == 1 and isinstance(c.ops[0], (ast.Lt, ast.LtE, ast.Gt, ast.GtE)) and fl.nodes_of(c):
-            l, r = c.left, c.comparators[0]
-            if from_tol(r) and not from_tol(l):
-                sites.append((c, l, c.ops[0]))
-            elif from_tol(l) and not from_tol(r):
-                flip = {ast.Lt: ast.Gt, ast.LtE: ast.GtE, ast.Gt: ast.Lt, ast.GtE: ast.LtE}.get(type(c.ops[0]))
-                sites.append((c, r, flip() if flip else c.ops[0]))
+    tol0 = [q for q in vi0.params[1:] if q not in _DEPTH_PARAMS + _VALUE_PARAMS]  # the tolerance parameter(s) of the entry point
+    sites = _tolerance_sites(ctx, dh, vi0, tol0)
     if not sites:
         raise AnalysisError("validate_interval_data: comparison against collocation_distance not found")
-    for c, dist, op in sites:
+    ALL_RED = {"norm", "max", "amax", "all", "alltrue"}
+    ANY_RED = {"min", "amin", "any", "sometrue"}
+    for vfn, fl, parents, c, dist, op in sites:
         kind = None
         for e in fl.cone(dist):
             for x in ast.walk(e):
@@ -391,12 +508,12 @@ def rule_match(ctx) -> RuleResult:
 
             kind = around(c)
         if kind is None:
-            raise AnalysisError(f"validate_interval_data:{c.lineno}: reduction over the (from, to) axis not recognised")
+            raise AnalysisError(f"validate_interval_data ({vfn.qualname}:{c.lineno}): reduction over the (from, to) axis not recognised")
         ok = kind == "all" and isinstance(op, (ast.Lt, ast.LtE))
-        res.inst(f"validate_interval_data:{c.lineno} interval match = all-components distance < tolerance", nontrivial=True, ok=ok)
+        res.inst(f"validate_interval_data ({vfn.name}:{c.lineno}) interval match = all-components distance < tolerance", nontrivial=True, ok=ok)
         if not ok:
             res.find("Drillhole", "validate_interval_data", "an interval matches when ANY endpoint coincides",
-                     f"{vi.module.relpath}:{c.lineno}",
+                     f"{vfn.module.relpath}:{c.lineno}",
                      "an added interval sharing only its from (or only its to) with an existing one is treated as that interval: its values are "
                      "attached to the wrong cell and no vertices are created for its other endpoint")
     return res
